@@ -25,7 +25,11 @@ BATCH_TIMEOUT = 300
 
 EXCS = ['ValueError', 'KeyError', 'NeedsArgs', 'CustomDerived', 'Chained',
         'Context', 'Group', 'UnicodeEncodeError', 'OSError', 'AssertionError',
-        'StopIteration', 'RecursionError', 'LookupError']
+        'StopIteration', 'RecursionError', 'LookupError',
+        # classes with unusual object protocols
+        'Unhashable', 'UnhashableChained', 'AlwaysEqual', 'FalsyError',
+        'BufferError', 'NotADirectoryError',
+        'ImportError', 'SyntaxError', 'TimeoutError']
 MSGS = [None, 'café ☃', 'line1\nline2\n  indented', 'x' * 300,
         '%s %d {}', '',
         # what os.fsdecode() makes of an undecodable file name, control and
